@@ -139,8 +139,9 @@ int Util::parseSizeOrPercent(
     int64_t total) {
   try {
     if (input.size() > 0 && input.at(input.size() - 1) == '%') {
-      int64_t pct = std::stoi(input.substr(0, input.size() - 1));
-      if (pct < 0 || pct > 100) {
+      size_t pct_end;
+      int64_t pct = std::stoi(input.substr(0, input.size() - 1), &pct_end);
+      if (pct_end != input.size() - 1 || pct < 0 || pct > 100) {
         return -1;
       }
 
